@@ -145,8 +145,17 @@ def run_scenario(sc, loop):
     return {'events': events, 'trace': policy.trace}
 
 
+def run_direct(triples):
+    """wpull.cookie.cookie_domain_ok / is_ip_literal called directly (the policy only reaches them when the
+    parent policy agrees, which hides part of their behaviour)"""
+    return [[bool(wpull.cookie.cookie_domain_ok(d, bool(sp), h)), bool(wpull.cookie.is_ip_literal(h))] for d, sp, h in triples]
+
+
 def main():
     req = json.load(sys.stdin)
+    if 'direct' in req:
+        print(json.dumps({'direct': run_direct(req['direct'])}))
+        return
     loop = asyncio.new_event_loop()
     asyncio.set_event_loop(loop)
     res = []
